@@ -121,3 +121,173 @@ Definition log_tag (ts : tstate) (x : option tag) : tstate :=
 Definition log_eval (ts : tstate) (o : opts) (v : value) : tstate :=
   {| prog := prog ts; pc := pc ts; rreg := rreg ts; treg := treg ts; vreg := vreg ts; hit := hit ts;
      tags := tags ts; evals := evals ts ++ [(o, v)] |}.
+
+(** global-state setters *)
+Definition set_tl (s : gstate) (t : thread) (x : tstate) : gstate :=
+  {| runtimes := runtimes s; previous := previous s; heap := heap s; defaults := defaults s;
+     table := table s; cache := cache s; reglog := reglog s; tl := upd (tl s) t x |}.
+Definition set_slot (s : gstate) (t : thread) (x : option rt) : gstate :=
+  {| runtimes := upd (runtimes s) t x; previous := previous s; heap := heap s;
+     defaults := defaults s; table := table s; cache := cache s; reglog := reglog s; tl := tl s |}.
+Definition set_prev (s : gstate) (t : thread) (x : list (option rt)) : gstate :=
+  {| runtimes := runtimes s; previous := upd (previous s) t x; heap := heap s;
+     defaults := defaults s; table := table s; cache := cache s; reglog := reglog s; tl := tl s |}.
+Definition set_table (s : gstate) (a : alias) (i : impl) (x : list (alias * impl)) : gstate :=
+  {| runtimes := runtimes s; previous := previous s; heap := heap s; defaults := defaults s;
+     table := x; cache := cache s; reglog := reglog s ++ [(a, i)]; tl := tl s |}.
+Definition set_cache (s : gstate) (x : list (fpr * value)) : gstate :=
+  {| runtimes := runtimes s; previous := previous s; heap := heap s; defaults := defaults s;
+     table := table s; cache := x; reglog := reglog s; tl := tl s |}.
+
+Definition slot_or_fresh (x : option rt) : rt := match x with Some r => r | None => fresh_rt end.
+
+Section Step.
+  (** [fpf o] = Cacheable.fingerprint of the cached dataset under options [o];
+      [valf o] = what evaluating the dataset's body under [o] yields (a function of the options). *)
+  Variable fpf : opts -> fpr.
+  Variable valf : opts -> value.
+  Variable fl : flags.
+
+  (** Runtime.__enter__ (186-191):
+        thread = current_thread(); _PREVIOUS.setdefault(thread, []).append(_RUNTIMES.get(thread));
+        _RUNTIMES[thread] = self *)
+  Definition step_enter (t : thread) (r : rt) (s : gstate) : gstate :=
+    let ts := tl s t in
+    if enter_atomic fl then
+      set_tl (set_slot (set_prev s t (runtimes s t :: previous s t)) t (Some r)) t (adv ts)
+    else match pc ts with
+      | 0 => set_tl s t (nxt (set_rreg ts (runtimes s t)))              (* read _RUNTIMES.get(thread) *)
+      | 1 => set_tl (set_prev s t (rreg ts :: previous s t)) t (nxt ts) (* append to own stack *)
+      | _ => set_tl (set_slot s t (Some r)) t (adv ts)                  (* _RUNTIMES[thread] = self *)
+      end.
+
+  (** Runtime.__exit__ (193-200): previous = _PREVIOUS[thread].pop();
+        if previous is None: _RUNTIMES.pop(thread, None) else: _RUNTIMES[thread] = previous.
+      An Exit with an empty stack (IndexError/KeyError in Python) is outside the generated
+      universe (programs are well nested); the model skips the operation. *)
+  Definition step_exit (t : thread) (s : gstate) : gstate :=
+    let ts := tl s t in
+    if exit_atomic fl then
+      match previous s t with
+      | [] => set_tl s t (adv ts)
+      | p :: st => set_tl (set_slot (set_prev s t st) t p) t (adv ts)
+      end
+    else match pc ts with
+      | 0 => match previous s t with
+             | [] => set_tl s t (adv ts)
+             | p :: st => set_tl (set_prev s t st) t (nxt (set_rreg ts p))   (* pop *)
+             end
+      | _ => set_tl (set_slot s t (rreg ts)) t (adv ts)                      (* write/pop the slot *)
+      end.
+
+  (** Request.run (l.51): current_runtime().run(self);
+      current_runtime (207-210): with lock: return _RUNTIMES.setdefault(thread, Runtime()).
+      The handler lookup reads only immutable data (Runtime.handlers) and the defaults. *)
+  Definition step_run (t : thread) (q : ty) (s : gstate) : gstate :=
+    let ts := tl s t in
+    if current_atomic fl then
+      let r := slot_or_fresh (runtimes s t) in
+      set_tl (set_slot s t (Some r)) t (adv (log_tag ts (serve (heap s) (defaults s) r q)))
+    else match pc ts with
+      | 0 => set_tl s t (nxt (set_rreg ts (runtimes s t)))                   (* read own slot *)
+      | _ => let r := slot_or_fresh (rreg ts) in                             (* setdefault's write *)
+             set_tl (match rreg ts with None => set_slot s t (Some r) | Some _ => s end) t
+                    (adv (log_tag ts (serve (heap s) (defaults s) r q)))
+      end.
+
+  (** inherit (256-265): with lock: _RUNTIMES[current] = _RUNTIMES.get(parent, Runtime()) *)
+  Definition step_inherit (t : thread) (p : thread) (s : gstate) : gstate :=
+    let ts := tl s t in
+    if inherit_atomic fl then
+      set_tl (set_slot s t (Some (slot_or_fresh (runtimes s p)))) t (adv ts)
+    else match pc ts with
+      | 0 => set_tl s t (nxt (set_rreg ts (Some (slot_or_fresh (runtimes s p)))))  (* read parent *)
+      | _ => set_tl (set_slot s t (rreg ts)) t (adv ts)                            (* write own *)
+      end.
+
+  (** Overloaded.register (100-101): with self._lock: self.lookup = {**self.lookup, key: value} *)
+  Definition step_register (t : thread) (a : alias) (i : impl) (s : gstate) : gstate :=
+    let ts := tl s t in
+    if register_rmw_atomic fl then
+      set_tl (set_table s a i (aset a i (table s))) t (adv ts)
+    else match pc ts with
+      | 0 => set_tl s t (nxt (set_treg ts (table s)))                        (* read self.lookup *)
+      | _ => set_tl (set_table s a i (aset a i (treg ts))) t (adv ts)        (* write self.lookup *)
+      end.
+
+  (** Cached.evaluate (328-338) with the default handlers (255-280) on a MemoryCache (159-169).
+      Always four actions:
+        0 exists:  [fingerprint in _cache]
+        1 get:     only when exists said yes; a failing get (CacheGetFailure) falls through
+        2 compute: only when no value was obtained; [self.evaluatable.evaluate(options)]
+        3 set:     only when computed; [_cache[fp] = value] then read back [_cache[fp]]
+                   (falls back to the value itself); the result is logged. *)
+  Definition step_eval (t : thread) (o : opts) (s : gstate) : gstate :=
+    let ts := tl s t in
+    match pc ts with
+    | 0 => set_tl s t (nxt (set_hit (set_vreg ts None)
+                              (match assoc (fpf o) (cache s) with Some _ => true | None => false end)))
+    | 1 => if hit ts
+           then match assoc (fpf o) (cache s) with
+                | Some v => set_tl s t (nxt (set_vreg ts (Some v)))
+                | None => set_tl s t (nxt (set_hit ts false))
+                end
+           else set_tl s t (nxt ts)
+    | 2 => match vreg ts with
+           | Some _ => set_tl s t (nxt ts)
+           | None => set_tl s t (nxt (set_hit (set_vreg ts (Some (valf o))) false))
+           end
+    | _ => match vreg ts with
+           | None => set_tl s t (adv ts)      (* unreachable: action 2 always leaves a value *)
+           | Some v =>
+               if hit ts then set_tl s t (adv (set_vreg (log_eval ts o v) None))
+               else let c := aset (fpf o) v (cache s) in
+                    let back := match assoc (fpf o) c with Some w => w | None => v end in
+                    set_tl (set_cache s c) t (adv (set_vreg (log_eval ts o back) None))
+           end
+    end.
+
+  Definition step (t : thread) (s : gstate) : gstate :=
+    match prog (tl s t) with
+    | [] => s
+    | Enter r :: _ => step_enter t r s
+    | Exit :: _ => step_exit t s
+    | Run q :: _ => step_run t q s
+    | Inherit p :: _ => step_inherit t p s
+    | Register a i :: _ => step_register t a i s
+    | EvalCached o :: _ => step_eval t o s
+    end.
+
+  (** Running a schedule. *)
+  Fixpoint run (sched : list thread) (s : gstate) : gstate :=
+    match sched with [] => s | t :: sched' => run sched' (step t s) end.
+
+  (** [n] consecutive actions of one thread ("t run alone"). *)
+  Fixpoint solo (t : thread) (n : nat) (s : gstate) : gstate :=
+    match n with O => s | S n' => solo t n' (step t s) end.
+
+  (** Operation-level step: run [t] until its current operation is complete (at most 4 actions). *)
+  Definition op_done (t : thread) (s : gstate) : bool := Nat.eqb (pc (tl s t)) 0.
+  Definition step_op (t : thread) (s : gstate) : gstate :=
+    let s1 := step t s in if op_done t s1 then s1 else
+    let s2 := step t s1 in if op_done t s2 then s2 else
+    let s3 := step t s2 in if op_done t s3 then s3 else step t s3.
+  Fixpoint run_ops (sched : list thread) (s : gstate) : gstate :=
+    match sched with [] => s | t :: sched' => run_ops sched' (step_op t s) end.
+End Step.
+
+Fixpoint count_thread (t : thread) (sched : list thread) : nat :=
+  match sched with [] => O | u :: l => (if N.eqb u t then 1 else 0) + count_thread t l end.
+
+(** Initial states: empty registers and logs, nothing entered. *)
+Definition init_ts (p : list op) : tstate :=
+  {| prog := p; pc := 0; rreg := None; treg := []; vreg := None; hit := false; tags := []; evals := [] |}.
+Definition init_state (hp : list (rt * htable)) (dflt : htable) (progs : list (thread * list op)) : gstate :=
+  {| runtimes := fun _ => None; previous := fun _ => []; heap := hp; defaults := dflt;
+     table := []; cache := []; reglog := [];
+     tl := fun t => init_ts (match assoc t progs with Some p => p | None => [] end) |}.
+
+Definition no_inherit (p : list op) : bool :=
+  forallb (fun o => match o with Inherit _ => false | _ => true end) p.
+Definition all_done (ths : list thread) (s : gstate) : bool :=
+  forallb (fun t => match prog (tl s t) with [] => true | _ => false end) ths.
